@@ -666,9 +666,17 @@ func (x *XRefParser) ParseAllXRefs() ([]*XRefTable, error) {
 
 	tables := []*XRefTable{mainTable}
 
-	// Parse previous XRefs
+	// Parse previous XRefs. Every section may be visited once: a /Prev chain that leads back
+	// to a section already read would otherwise be followed forever.
+	visited := map[int64]bool{x.startPos: true}
 	currentTable := mainTable
 	for {
+		if prev, ok := currentTable.Trailer.Get("Prev").(Int); ok {
+			if visited[int64(prev)] {
+				return nil, fmt.Errorf("circular /Prev chain: xref section at offset %d is referenced twice", int64(prev))
+			}
+			visited[int64(prev)] = true
+		}
 		prevTable, err := x.ParsePrevXRef(currentTable)
 		if err != nil {
 			return nil, fmt.Errorf("failed to parse prev xref: %w", err)
